@@ -165,7 +165,13 @@ Definition reg_undo (u : undo) : act := fun s =>
 
 Definition butler_txn (c : cfg) (m : act) : act := with_reg (fix_sp c) (fix_dc c) (with_ds c m).
 
-Definition load_dc : act := upd (fun s => match dcache s with None => set_dcache (Some (dims (cur s))) s | _ => s end).
+(* the dimension record cache is loaded on first use: when it is empty the implementation issues a batch of SELECTs (one
+   boundary here; a fault there changes nothing and leaves the cache unloaded), when it is loaded nothing is read *)
+Definition load_dc : act := fun s =>
+  match dcache s with
+  | None => ev (upd (fun s0 => set_dcache (Some (dims (cur s0))) s0)) s
+  | Some _ => (s, Normal)
+  end.
 
 (* ------------------------------------------------------------------------------------------------------ *)
 Inductive mode := Copy | Move.
@@ -199,6 +205,7 @@ Definition transfer (m : mode) (d : N) : act := fun s =>
 
 Definition do_ingest (c : cfg) (m : mode) (d : N) : act :=
   butler_txn c (
+    load_dc ;;                                                                        (* data ID expansion loads the cache *)
     ev (guard (fun s => negb (has_ds d s))) ;; upd (on_cur (up_ds (add d))) ;;      (* registry._importDatasets *)
     guard (fun s => match fget d (ext s) with Some _ => true | None => false end) ;; (* _prepIngest existence check *)
     with_ds c (transfer m d ;; ev (stored_rows d))).                                  (* _finishIngest *)
@@ -254,6 +261,7 @@ Definition src_content (d : N) : N := 200 + d.
 
 Definition do_transfer (c : cfg) (d : N) : act :=
   butler_txn c (
+    load_dc ;;
     ev (guard (fun s => negb (has_ds d s) || mem d (xf (cur s)))) ;;
     upd (on_cur (fun x => up_xf (add d) (up_ds (add d) x))) ;;
     with_ds c (fun s => if mem d (recs (cur s)) then (s, Normal) else
@@ -267,6 +275,7 @@ Definition do_transfer (c : cfg) (d : N) : act :=
    the dataset is already located / recorded: the rollback then deletes the artifact that was there before. *)
 Definition do_import (c : cfg) (d : N) : act :=
   butler_txn c (
+    load_dc ;;
     ev (guard (fun s => negb (has_ds d s) || mem d (xf (cur s)))) ;;
     upd (on_cur (fun x => up_xf (add d) (up_ds (add d) x))) ;;
     with_ds c (ev ret ;; ev (upd (fun s => set_fs (fset d (src_content d) (fs s)) s)) ;; reg_undo (URm d) ;; ev ret ;;
